@@ -524,27 +524,55 @@ def clone_ast(node):
     return node
 
 
-def expand_locals(func_node, expr, depth: int = 4):
-    """a copy of `expr` in which every single-definition local is replaced by its defining expression"""
+def expand_locals(func_node, expr, depth: int = 4, at: Optional[int] = None, keep=()):
+    """a copy of `expr` in which every single-definition local is replaced by its defining expression; with `at` (the CFG
+    node where the expression is evaluated) also re-used temporaries with exactly one reaching plain definition"""
     sd = single_defs(func_node)
+    rd = None
+    if at is None:
+        try:
+            ids = rd_of(func_node).cfg.node_of_expr(expr)
+            at = ids[0] if ids else None
+        except Exception:
+            at = None
 
-    def go(n, d):
-        if isinstance(n, ast.Name) and isinstance(n.ctx, ast.Load) and n.id in sd and d > 0:
-            return go(sd[n.id], d - 1)
+    def lookup(n, where):
+        nonlocal rd
+        if n.id in keep:
+            return None, None
+        if n.id in sd:
+            return sd[n.id], None
+        if where is None:
+            return None, None
+        try:
+            rd = rd or rd_of(func_node)
+            all_ds = rd.reaching(n.id, where)
+            ds = [d for d in all_ds if not d.weak]
+            if len(ds) == 1 and len(all_ds) == 1 and ds[0].kind == "assign" and isinstance(ds[0].value, ast.AST) and ds[0].index is None:
+                return ds[0].value, ds[0].node
+        except Exception:
+            pass
+        return None, None
+
+    def go(n, d, where):
+        if isinstance(n, ast.Name) and isinstance(n.ctx, ast.Load) and d > 0:
+            v, w2 = lookup(n, where)
+            if v is not None:
+                return go(v, d - 1, w2 if w2 is not None else where)
         if isinstance(n, ast.AST):
             new = n.__class__()
             for name in n._fields:
                 if hasattr(n, name):
-                    setattr(new, name, go(getattr(n, name), d))
+                    setattr(new, name, go(getattr(n, name), d, where))
             for a in ("lineno", "col_offset", "end_lineno", "end_col_offset"):
                 if hasattr(n, a):
                     setattr(new, a, getattr(n, a))
             return new
         if isinstance(n, list):
-            return [go(x, d) for x in n]
+            return [go(x, d, where) for x in n]
         return n
 
-    return go(expr, depth)
+    return go(expr, depth, at)
 
 
 def return_values(func_node):
